@@ -14,9 +14,22 @@
 //  (3) no due node is lost: after a sweep with deferrals a quiet cycle (recalculate, pulse at the same t, no actions) must fire
 //      every node that is valid and due;  (4) a fired node is asked again in the next recalculation (part of (1));
 //  (5) after every operation the public observers agree with the model (GetPulseParent, ContainsPulseChild, GetScheduledPulseTime).
-// modes: model (default) | regress (documentation examples and fixed witnesses)
+// modes: model (default) | server | regress (documentation examples and fixed witnesses)
+// mode=server: the root manager of the real tree, ReflectServer (reflector/ReflectServer.cpp), on the real clock: instrumented ReflectSessionFactory
+// subclasses (some refusing connections for a while, some wanting pulses; PutAcceptFactory on port 0 / loopback), instrumented sessions attached
+// with AddNewSession() over socket pairs, extra PulseNode children under sessions / factories / the server; ServerProcessLoop(0) steps and
+// ServerProcessLoop(now + 40..60 ms) waits.  Verdicts are causal, never lateness: (a) a node fires only when valid, not before the time it asked
+// for (callback time and real clock), with GetScheduledTime() == that time; (b) after ServerProcessLoop(runUntil) has returned and one quiet
+// cycle has run (its cycle start is >= runUntil), no attached valid node may still have a time <= runUntil unserved; (c) at the moment the
+// server waits (first callback of a cycle, or its end) every attached node has been asked, and the wake-up time the server reports is the
+// minimum of their answers; (d) one fire per answer.
 #include "util/PulseNode.h"
 #include "system/SetupSystem.h"
+#include "reflector/ReflectServer.h"
+#include "reflector/DumbReflectSession.h"
+#include "util/NetworkUtilityFunctions.h"
+#include "syslog/SysLog.h"
+#include <deque>
 #include <vector>
 #include <map>
 #include <set>
@@ -380,12 +393,191 @@ static void Regress()
    }
 }
 
+
+// ======================================================================== mode=server
+namespace srv {
+enum { C_SERVER = 0, C_FACTORY, C_SESSION, C_CHILD };
+enum { S_DETACHED = 0, S_ATTACHED = 1, S_LIMBO = 2, S_GONE = 3 };     // limbo: EndSession()/RemoveAcceptFactory() called, not judged any more
+static const char * clsName[] = {"server", "factory", "session", "child"};
+struct Inst { int id, cls; PulseNode * node; uint64 req; bool valid; uint64 lastReturned, sched; int state, parent; bool ready; long fires, asks; };
+static std::deque<Inst> insts;      // (references stay valid while the deque grows)
+static bool quietMode, snapshotDone, inLoop, minCheckable; static uint64 snapshotMin; static long snapshots;
+
+static int Status(int i) { for (int guard = 0; guard < 1000; guard++) { const Inst & x = insts[i]; if (x.state == S_LIMBO) return S_LIMBO; if (x.state == S_GONE) return S_DETACHED; if (x.cls != C_CHILD) return x.state; if (x.parent < 0 || x.state != S_ATTACHED) return S_DETACHED; i = x.parent; } return S_DETACHED; }
+static std::string Name(const Inst & x) { return vh::fmt("%s#%d", clsName[x.cls], x.id); }
+static uint64 PickReq(uint64 t) { switch (R(7)) { case 0: return NEVER; case 1: return t > 3000 ? t - R(3000) : 0; case 2: return t + R(300); default: return t + R(30000); } }
+
+// (c) the moment of the wait: everything attached has been asked; the wake-up time is the minimum of the answers
+static void Snapshot()
+{
+   snapshotDone = true; snapshots++; snapshotMin = NEVER;
+   for (size_t i = 0; i < insts.size() && !caseBad; i++) {
+      const Inst & x = insts[i]; if (Status((int)i) != S_ATTACHED) continue;
+      if (!x.valid) { Fail(std::string("server|node_not_asked_before_wait|") + clsName[x.cls], vh::fmt("%s is attached%s and its GetPulseTime() was not called before the server waited (wants %s)", Name(x).c_str(), x.cls == C_FACTORY ? (x.ready ? ", accepting" : ", NOT ready to accept sessions") : "", T(x.req).c_str())); return; }
+      if (x.lastReturned < snapshotMin) snapshotMin = x.lastReturned;
+      if (x.cls == C_FACTORY && !x.ready && x.lastReturned != NEVER) vh::stat("factory_nodes_not_ready_wanting_pulse");
+   }
+}
+static void SAction(Inst * self);
+static uint64 Ask(Inst & x, uint64 cb, uint64 sa)
+{
+   x.asks++; now = GetRunTime64();
+   Op(vh::fmt("ask %s -> %s", Name(x).c_str(), T(x.req).c_str()));
+   const int st = Status(x.id);
+   if (!inLoop) Fail("server|asked_outside_event_loop", Name(x));
+   else if (st == S_DETACHED) Fail("server|asked_detached_node", Name(x));
+   else if (cb > now) Fail("server|asked|callback_time_in_the_future", Name(x));
+   else if (sa != x.sched) Fail("server|asked|scheduled_time_arg", vh::fmt("%s: GetScheduledTime() is %s, documented: the previous answer (%s)", Name(x).c_str(), T(sa).c_str(), T(x.sched).c_str()));
+   vh::stat(std::string("asks_") + clsName[x.cls]);
+   x.valid = true; x.lastReturned = x.sched = x.req;
+   return x.req;
+}
+static void Fire(Inst & x, uint64 cb, uint64 sa)
+{
+   if (!snapshotDone) Snapshot();
+   x.fires++; now = GetRunTime64();
+   Op(vh::fmt("FIRE %s (asked for %s, callback time %s)", Name(x).c_str(), T(x.lastReturned).c_str(), T(cb).c_str()));
+   const int st = Status(x.id);
+   if (!inLoop) Fail("server|fired_outside_event_loop", Name(x));
+   else if (st == S_DETACHED) Fail("server|fired|detached_node", Name(x));
+   else if (!x.valid) Fail("server|fired|without_a_new_answer", vh::fmt("%s fired although it has not been asked since it last fired / was invalidated", Name(x).c_str()));
+   else if (x.lastReturned > cb || x.lastReturned > now) Fail("server|fired|before_its_time", vh::fmt("%s asked for %s, fired with callback time %s at clock %s", Name(x).c_str(), T(x.lastReturned).c_str(), T(cb).c_str(), T(now).c_str()));
+   else if (sa != x.lastReturned) Fail("server|fired|scheduled_time_arg", vh::fmt("%s: GetScheduledTime() is %s, it asked for %s", Name(x).c_str(), T(sa).c_str(), T(x.lastReturned).c_str()));
+   else if (cb > now) Fail("server|fired|callback_time_in_the_future", Name(x));
+   vh::stat(std::string("fires_") + clsName[x.cls]);
+   if (x.cls == C_FACTORY && !x.ready) vh::stat("fires_factory_while_not_ready");
+   x.valid = false;
+   if (quietMode) { x.req = NEVER; return; }
+   x.req = R(10) == 0 ? PickReq(now) : (R(5) == 0 ? NEVER : now + 200 + R(30000));
+   const int na = R(2) ? 0 : 1 + (int)R(2);
+   for (int i = 0; i < na && !caseBad; i++) SAction(&x);
+}
+
+class Srv : public ReflectServer { public: int inst;
+   virtual uint64 GetPulseTime(const PulseArgs & a) { if (ReflectServer::GetPulseTime(a) != NEVER) minCheckable = false; return Ask(insts[inst], a.GetCallbackTime(), a.GetScheduledTime()); }
+   virtual void Pulse(const PulseArgs & a) { ReflectServer::Pulse(a); Fire(insts[inst], a.GetCallbackTime(), a.GetScheduledTime()); }
+   virtual void EventLoopCycleBegins() { snapshotDone = false; vh::stat("server_cycles"); }
+   virtual void EventLoopCycleEnds() { if (!snapshotDone && !caseBad) Snapshot(); } };
+class Fac : public ReflectSessionFactory { public: int inst;
+   virtual AbstractReflectSessionRef CreateSession(const String &, const IPAddressAndPort &) { return AbstractReflectSessionRef(); }
+   virtual bool IsReadyToAcceptSessions() const { return insts[inst].ready; }
+   virtual uint64 GetPulseTime(const PulseArgs & a) { if (ReflectSessionFactory::GetPulseTime(a) != NEVER) minCheckable = false; return Ask(insts[inst], a.GetCallbackTime(), a.GetScheduledTime()); }
+   virtual void Pulse(const PulseArgs & a) { ReflectSessionFactory::Pulse(a); Fire(insts[inst], a.GetCallbackTime(), a.GetScheduledTime()); } };
+class Ses : public DumbReflectSession { public: int inst;
+   virtual uint64 GetPulseTime(const PulseArgs & a) { if (DumbReflectSession::GetPulseTime(a) != NEVER) minCheckable = false; return Ask(insts[inst], a.GetCallbackTime(), a.GetScheduledTime()); }
+   virtual void Pulse(const PulseArgs & a) { DumbReflectSession::Pulse(a); Fire(insts[inst], a.GetCallbackTime(), a.GetScheduledTime()); } };
+class Kid : public PulseNode { public: int inst;
+   virtual uint64 GetPulseTime(const PulseArgs & a) { return Ask(insts[inst], a.GetCallbackTime(), a.GetScheduledTime()); }
+   virtual void Pulse(const PulseArgs & a) { Fire(insts[inst], a.GetCallbackTime(), a.GetScheduledTime()); } };
+
+static Inst & NewInst(int cls, PulseNode * n) { Inst x; x.id = (int)insts.size(); x.cls = cls; x.node = n; x.req = PickReq(GetRunTime64()); x.valid = false; x.lastReturned = x.sched = NEVER; x.state = S_DETACHED; x.parent = -1; x.ready = true; x.fires = x.asks = 0; insts.push_back(x); return insts.back(); }
+static bool InChain(int anc, int i) { for (int guard = 0; i >= 0 && guard < 1000; guard++) { if (i == anc) return true; i = insts[i].cls == C_CHILD ? insts[i].parent : -1; } return false; }
+static int DepthOf(int i) { int d = 0; while (insts[i].cls == C_CHILD && insts[i].parent >= 0 && d < 100) { i = insts[i].parent; d++; } return d; }
+static Inst * PickInst(int cls /* -1 any */) { for (int t = 0; t < 16; t++) { Inst & x = insts[R((uint32)insts.size())]; if (x.state != S_GONE && (cls < 0 || x.cls == cls)) return &x; } return NULL; }
+static void DetachKid(Inst & k, const char * where) { Op(vh::fmt("%sdetach %s from %d", where, Name(k).c_str(), k.parent)); insts[k.parent].node->RemovePulseChild(k.node); k.parent = -1; k.state = S_DETACHED; k.valid = false; vh::stat(std::string(where) + "srv_op_detach_child"); }
+static void SAction(Inst * self)
+{
+   const char * where = self ? "cb:" : ""; const uint64 t = GetRunTime64(); const uint32 o = R(100);
+   if (o < 25) { Inst * b = PickInst(-1); if (!b) return; const bool clear = R(2) != 0; b->req = PickReq(t);
+      Op(vh::fmt("%sinvalidate %s clear=%d req=%s", where, Name(*b).c_str(), (int)clear, T(b->req).c_str())); b->node->InvalidatePulseTime(clear); b->valid = false; if (clear) b->sched = NEVER; vh::stat(std::string(where) + "srv_op_invalidate"); }
+   else if (o < 33 && self) { const bool clear = R(2) != 0; self->req = PickReq(t); Op(vh::fmt("cb:invalidate self %s clear=%d", Name(*self).c_str(), (int)clear)); self->node->InvalidatePulseTime(clear); self->valid = false; if (clear) self->sched = NEVER; vh::stat("cb:srv_op_invalidate_self"); }
+   else if (o < 43) { Inst * b = PickInst(-1); if (!b) return; b->req = PickReq(t); Op(vh::fmt("%sretime %s req=%s", where, Name(*b).c_str(), T(b->req).c_str())); vh::stat(std::string(where) + "srv_op_retime"); }
+   else if (o < 62) { Inst * k = PickInst(C_CHILD), * p = PickInst(-1); if (!k || !p || p->state == S_LIMBO || InChain(k->id, p->id) || DepthOf(p->id) >= 4) return;
+      if (self && InChain(k->id, self->id)) return;
+      Op(vh::fmt("%sattach %s under %s", where, Name(*k).c_str(), Name(*p).c_str()));
+      p->node->PutPulseChild(k->node); if (k->parent >= 0) k->valid = false; k->parent = p->id; k->state = S_ATTACHED; vh::stat(std::string(where) + "srv_op_attach_child"); }
+   else if (o < 72) { Inst * k = PickInst(C_CHILD); if (!k || k->parent < 0 || (self && InChain(k->id, self->id))) return; DetachKid(*k, where); }
+   else if (o < 80) { Inst * f = PickInst(C_FACTORY); if (!f) return; f->ready = !f->ready; Op(vh::fmt("%s%s ready=%d", where, Name(*f).c_str(), (int)f->ready)); vh::stat(std::string(where) + "srv_op_toggle_factory_ready"); }
+   else if (self) { self->req = PickReq(t); Op(vh::fmt("cb:next time of %s = %s", Name(*self).c_str(), T(self->req).c_str())); }
+}
+
+struct Bench {
+   Srv server; std::vector<ReflectSessionFactoryRef> facs; std::vector<uint16> ports; std::vector<int> facInst; std::vector<AbstractReflectSessionRef> sess; std::vector<ConstSocketRef> peers; std::vector<Kid *> kids;
+   void AddFactory(bool ready, uint64 req, bool setReq) {
+      Fac * f = new Fac; ReflectSessionFactoryRef r(f); Inst & x = NewInst(C_FACTORY, f); f->inst = x.id; x.ready = ready; if (setReq) x.req = req; uint16 port = 0;
+      if (server.PutAcceptFactory(0, r, localhostIP, &port).IsError()) { fprintf(stderr, "HARNESS-ABORT: PutAcceptFactory on loopback failed\n"); exit(2); }
+      x.state = S_ATTACHED; facs.push_back(r); ports.push_back(port); facInst.push_back(x.id); Op(vh::fmt("factory %s ready=%d req=%s", Name(x).c_str(), (int)ready, T(x.req).c_str())); vh::stat("server_factories"); }
+   void AddSession() {
+      ConstSocketRef a, b; if (CreateConnectedSocketPair(a, b).IsError()) { fprintf(stderr, "HARNESS-ABORT: socket pair\n"); exit(2); }
+      Ses * s = new Ses; AbstractReflectSessionRef r(s); Inst & x = NewInst(C_SESSION, s); s->inst = x.id;
+      if (server.AddNewSession(r, a).IsError()) { fprintf(stderr, "HARNESS-ABORT: AddNewSession\n"); exit(2); }
+      x.state = S_ATTACHED; sess.push_back(r); peers.push_back(b); Op(vh::fmt("session %s req=%s", Name(x).c_str(), T(x.req).c_str())); vh::stat("server_sessions"); }
+   void AddKid() { Kid * k = new Kid; Inst & x = NewInst(C_CHILD, k); k->inst = x.id; kids.push_back(k); Inst * p = PickInst(-1);
+      if (p && p->state != S_LIMBO && DepthOf(p->id) < 4 && p->id != x.id) { p->node->PutPulseChild(k); x.parent = p->id; x.state = S_ATTACHED; Op(vh::fmt("child %s under %s req=%s", Name(x).c_str(), Name(*p).c_str(), T(x.req).c_str())); if (p->cls == C_SESSION) vh::stat("session_child_nodes"); }
+      vh::stat("server_child_nodes"); }
+   void CheckMin(uint64 next, const char * what) { if (caseBad || !minCheckable) return; if (next != snapshotMin) Fail(next < snapshotMin ? "server|wakeup_time_too_early" : "server|wakeup_time_too_late", vh::fmt("%s reported the next pulse time %s, the minimum over the attached nodes' answers is %s", what, T(next).c_str(), T(snapshotMin).c_str())); }
+   void Single() { uint64 next = 0; Op("STEP ServerProcessLoop(0)"); inLoop = true; status_t r = server.ServerProcessLoop(0, &next); inLoop = false; vh::stat("server_single_steps"); if (r.IsError()) Fail("server|ServerProcessLoop_error", r()); CheckMin(next, "ServerProcessLoop(0)"); }
+   void Timed() {
+      const uint64 runUntil = GetRunTime64() + 40000 + R(20001); uint64 next = 0; Op(vh::fmt("RUN ServerProcessLoop(until %s)", T(runUntil).c_str()));
+      inLoop = true; status_t r = server.ServerProcessLoop(runUntil, &next); inLoop = false; vh::stat("server_timed_loops"); if (r.IsError()) Fail("server|ServerProcessLoop_error", r());
+      if (!caseBad && GetRunTime64() < runUntil) Fail("server|loop_returned_early", "ServerProcessLoop(runUntil) returned before runUntil");
+      CheckMin(next, "ServerProcessLoop(runUntil)");
+      // (b) the server claims to have run until runUntil: one quiet cycle later (cycle start >= runUntil) nothing that was due may be left
+      quietMode = true; if (!caseBad) Single(); if (!caseBad) Single(); quietMode = false;
+      for (size_t i = 0; i < insts.size() && !caseBad; i++) { const Inst & x = insts[i]; if (Status((int)i) == S_ATTACHED && x.valid && x.lastReturned <= runUntil) Fail(std::string("server|due_node_not_served_when_loop_returned|") + clsName[x.cls], vh::fmt("%s asked for %s, ServerProcessLoop(%s) returned and a quiet cycle ran, it has not fired", Name(x).c_str(), T(x.lastReturned).c_str(), T(runUntil).c_str())); }
+   }
+   void Finish() { server.Cleanup(); facs.clear(); sess.clear(); peers.clear(); for (size_t i = 0; i < kids.size(); i++) delete kids[i]; kids.clear(); }
+};
+static void ResetCase(uint64_t cs) { g = vh::Rng(cs); trace.clear(); caseBad = false; insts.clear(); quietMode = false; snapshotDone = true; inLoop = false; minCheckable = true; snapshots = 0; snapshotMin = NEVER; }
+
+static void RunServerCase(long k, uint64_t cs)
+{
+   ResetCase(cs);
+   {
+      Bench b; b.server.SetDoLogging(false);
+      Inst & sx = NewInst(C_SERVER, &b.server); b.server.inst = sx.id; sx.state = S_ATTACHED;
+      const int nf = 1 + (int)R(3); for (int i = 0; i < nf; i++) b.AddFactory(R(2) != 0, 0, false);
+      const int ns = 1 + (int)R(4); for (int i = 0; i < ns; i++) b.AddSession();
+      const int nk = (int)R(9); for (int i = 0; i < nk; i++) b.AddKid();
+      int timedLeft = 2 + (int)R(2); const int steps = 6 + (int)R(8);
+      for (int s = 0; s < steps && !caseBad; s++) {
+         const int nops = (int)R(4);
+         for (int i = 0; i < nops && !caseBad; i++) {
+            const uint32 o = R(100);
+            if (o < 70) SAction(NULL);
+            else if (o < 78 && b.sess.size() < 8) b.AddSession();
+            else if (o < 88 && b.kids.size() < 16) b.AddKid();
+            else if (o < 92) { Inst * x = PickInst(C_SESSION); if (x && x->state == S_ATTACHED) { Op(vh::fmt("EndSession %s", Name(*x).c_str())); x->state = S_LIMBO; static_cast<Ses *>(x->node)->EndSession(); vh::stat("srv_op_end_session"); } }
+            else if (o < 95 && b.facs.size() > 1) { const size_t fi = R((uint32)b.facs.size()); Inst & x = insts[b.facInst[fi]]; if (x.state == S_ATTACHED) { Op(vh::fmt("RemoveAcceptFactory %s", Name(x).c_str())); x.state = S_LIMBO; (void)b.server.RemoveAcceptFactory(b.ports[fi], localhostIP); vh::stat("srv_op_remove_factory"); } }
+         }
+         if (caseBad) break;
+         if (timedLeft > 0 && (R(4) == 0 || steps - s <= timedLeft)) { timedLeft--; b.Timed(); } else b.Single();
+      }
+      long fires = 0; for (size_t i = 0; i < insts.size(); i++) fires += insts[i].fires;
+      vh::stat("server_cases"); vh::stat("server_snapshots", snapshots); if (!minCheckable) vh::stat("unspecified_base_class_wants_a_pulse");
+      vh::distinct(vh::fnv(&cs, sizeof(cs)), fires >= 5);
+      if (vh::want_sample()) { std::string s = vh::fmt("server case %ld: %zu nodes, %ld fires: ", k, insts.size(), fires); for (size_t i = 0; i < trace.size() && i < 25; i++) { s += trace[i]; s += "; "; } vh::sample(s + "..."); }
+      b.Finish();
+   }
+   insts.clear();
+}
+
+// the seeded scenario: a factory that refuses connections and wants a pulse (accept throttling that resumes through its own timer)
+static void RegressNotReadyFactory()
+{
+   vh::begin_case(10); ResetCase(77);
+   {
+      Bench b; b.server.SetDoLogging(false);
+      Inst & sx = NewInst(C_SERVER, &b.server); b.server.inst = sx.id; sx.state = S_ATTACHED; sx.req = NEVER;
+      b.AddFactory(false, GetRunTime64() + 5000, true);
+      quietMode = true;
+      b.Single();
+      if (!caseBad) b.Timed();
+      if (!caseBad && insts[1].fires != 1) Fail("regress|not_ready_factory_must_be_pulsed", vh::fmt("factory fired %ld times, expected once", insts[1].fires));
+      b.Finish();
+   }
+   insts.clear(); vh::distinct(11);
+}
+}  // namespace srv
+
 int main(int argc, char ** argv)
 {
    CompleteSetupSystem css;
    vh::init(argc, argv);
    vh::Ctx & c = vh::ctx();
-   if (vh::opt("mode", "model") == "regress") { Regress(); return vh::finish(); }
+   (void)SetConsoleLogLevel(MUSCLE_LOG_NONE);
+   if (vh::opt("mode", "model") == "regress") { Regress(); srv::RegressNotReadyFactory(); return vh::finish(); }
+   if (vh::opt("mode", "model") == "server") { for (long k = c.from; k < c.from + c.cases; k++) { vh::begin_case(k); srv::RunServerCase(k, vh::case_seed(c.seed, 2002, (uint64_t)k)); } return vh::finish(); }
    for (long k = c.from; k < c.from + c.cases; k++) { vh::begin_case(k); RunCase(k, vh::case_seed(c.seed, 2001, (uint64_t)k)); }
    return vh::finish();
 }
